@@ -5,7 +5,7 @@
 From Coq Require Import ZifyBool ZifyNat ZifyN.
 From RN Require Import Base.Res Base.AMap Base.AMapProofs Naming.Service Naming.ServiceProofs
   Naming.Timeout Naming.TimeoutProofs Naming.Filter Naming.Actor Naming.IndexProofs Naming.ActorProofs
-  Naming.OwnershipProofs Naming.Script Naming.ScriptProofs.
+  Naming.BudgetProofs Naming.OwnershipProofs Naming.Script Naming.ScriptProofs.
 Local Open Scope N_scope.
 
 Definition recorded (cl : list (N * list fkey)) (c : N) (fk : fkey) : Prop :=
@@ -257,6 +257,9 @@ Proof.
   - destruct (get_service_info_page a ns). exact C.
   - exact C.
   - exact C.
+  - eapply (conv_sub a); [|reflexivity|auto].
+    apply stored_sub_map with (f := fun k s => if kvis k (BudgetProofs.visited c n order a) then fst (fst (tc_svc c (a_now a) s)) else s); [|reflexivity].
+    intros k s _. destruct (kvis _ _); [apply svc_keeps_time_check | apply svc_keeps_refl].
 Qed.
 
 (** the connections removed by a history, and the invariant along it *)
